@@ -179,3 +179,11 @@ for _pid in ("C12", "C13"):
     if "RrProofs.Pins" not in p["modules"]:
         p["modules"] += ["RrProofs.Pins"]
     p["theorems"] += [_PIN_SB]
+
+# C08 / C18: the re-entries of cachingFunc and their arguments are pinned (skipRevalidate is true at one site only)
+_PIN_CF = T("Pins.cachingFuncCalls", "pin", "cachingHandler: every (re-)entry of cachingFunc with its arguments; skipRevalidate = true only at the stale-if-error re-entry of the SAME request")
+for _pid in ("C08", "C18"):
+    p = PROPS[_pid]
+    if "RrProofs.Pins" not in p["modules"]:
+        p["modules"] += ["RrProofs.Pins"]
+    p["theorems"] += [_PIN_CF]
